@@ -7,7 +7,7 @@ observations compared with a solo run."""
 import concurrent.futures, json, os, random, re, subprocess
 import vlib, progs, regen
 
-THEOREMS = ["C08_no_container_shared_between_contexts", "C08_others_cannot_interfere", "C08_no_leak", "C08_process_wide_state_is_audited"]
+THEOREMS = ["C08_no_container_shared_between_contexts", "C08_others_cannot_interfere", "C08_no_leak", "C08_observes_what_it_observes_alone", "C08_process_wide_state_is_audited"]
 MODDIR = os.path.join(vlib.VERIF, "tools", "data", "c08mods")
 
 CHANNELS = [
@@ -142,7 +142,7 @@ def check(res):
         "Model/Contexts.v is hand-written from py/module.go (NewModule, copyGlobals), py/internal.go (SetAttrString refuses built-in types) and stdlib/stdlib.go (NewContext); tied by the operation-history correspondence through the Go API",
         "the Go race detector (go build -race) observes the schedules that happen to occur: sampled, not enumerated; the theorem covers all interleavings of the modelled operations only",
         "observations are taken at the granularity of whole operations (no torn reads): atomicity of a single Go map/slice operation within a context is not modelled",
-        "equality with a solo run (not only non-interference) additionally needs address-insensitivity of a context's own steps: checked by the solo/concurrent comparison, not proved"]
+        "the model's operations are the store-level ones (import, bind, in-place append, alias, delete); what Python code does between them inside one context is outside the model (compared with the solo run)"]
     rc, out = regen.regen_inventories()
     berr = vlib.go_build_race()
     built, mlog = vlib.coq_make()
